@@ -528,6 +528,11 @@ class Densify(EnvironmentFilter):
             if self._action and 'actions' in new:
                 new['actions'] = list(map(self._make_dense,new['actions']))
 
+                if any(map(isinstance,interaction['actions'],repeat(primitives.Sparse))):
+                    for target in ['rewards','feedbacks']:
+                        if callable(new.get(target)):
+                            new[target] = DiscreteReward(new['actions'],list(map(interaction[target],interaction['actions'])))
+
             if self._action and 'action' in new:
                 new['action'] = self._make_dense(new['action'])
 
